@@ -3,6 +3,7 @@ package main
 import (
 	"context"
 	"fmt"
+	"github.com/cockroachdb/errors/errorspb"
 
 	"github.com/cockroachdb/errors"
 	"github.com/cockroachdb/errors/errbase"
@@ -234,17 +235,50 @@ func setVersion(v version, wrapper bool) (mk func(msg string, cause error) error
 	case vUnk:
 		return nil, restore
 	}
+	// Every version registers its own encoder / decoder pair under the type key of its local type
+	// (which the migration resolves to the original name).  The encoder attaches a payload and the
+	// decoder insists on it: an encoding that bypassed the registered encoder is not decoded to the
+	// local type.
 	leafKey := errbase.GetTypeKey(local("", errors.New("x")))
 	if wrapper {
-		errbase.RegisterWrapperDecoder(leafKey, func(_ context.Context, cause error, msg string, _ []string, _ proto.Message) error {
+		errbase.RegisterWrapperEncoder(leafKey, func(_ context.Context, err error) (string, []string, proto.Message) {
+			var msg string
+			switch w := err.(type) {
+			case *MigWOld:
+				msg = w.msg
+			case *MigWNew:
+				msg = w.msg
+			case *MigWOther:
+				msg = w.msg
+			}
+			return msg, nil, &errorspb.StringPayload{Msg: "payload of " + msg}
+		})
+		errbase.RegisterWrapperDecoder(leafKey, func(_ context.Context, cause error, msg string, _ []string, payload proto.Message) error {
+			if sp, ok := payload.(*errorspb.StringPayload); !ok || sp.Msg != "payload of "+msg {
+				return nil
+			}
 			return local(msg, cause)
 		})
-		return local, func() { errbase.RegisterWrapperDecoder(leafKey, nil); restore() }
+		return local, func() {
+			errbase.RegisterWrapperDecoder(leafKey, nil)
+			errbase.RegisterWrapperEncoder(leafKey, nil)
+			restore()
+		}
 	}
-	errbase.RegisterLeafDecoder(leafKey, func(_ context.Context, msg string, _ []string, _ proto.Message) error {
+	errbase.RegisterLeafEncoder(leafKey, func(_ context.Context, err error) (string, []string, proto.Message) {
+		return err.Error(), nil, &errorspb.StringPayload{Msg: "payload of " + err.Error()}
+	})
+	errbase.RegisterLeafDecoder(leafKey, func(_ context.Context, msg string, _ []string, payload proto.Message) error {
+		if sp, ok := payload.(*errorspb.StringPayload); !ok || sp.Msg != "payload of "+msg {
+			return nil
+		}
 		return local(msg, nil)
 	})
-	return local, func() { errbase.RegisterLeafDecoder(leafKey, nil); restore() }
+	return local, func() {
+		errbase.RegisterLeafDecoder(leafKey, nil)
+		errbase.RegisterLeafEncoder(leafKey, nil)
+		restore()
+	}
 }
 
 func runScenario(res *Result, wrapper bool, s, m, r version) {
@@ -256,7 +290,9 @@ func runScenario(res *Result, wrapper bool, s, m, r version) {
 		origP, origT = fullName(&MigWOld{})
 	}
 	orig := origP + "/" + origT
-	fail := func(what string) { res.fail(cse, "C17.scenario", name+": "+what, "C17:scenario:"+what[:min(len(what), 24)]) }
+	fail := func(what string) {
+		res.fail(cse, "C17.scenario", name+": "+what, "C17:scenario:"+what[:min(len(what), 24)])
+	}
 
 	defer func() {
 		if v := recover(); v != nil {
